@@ -191,8 +191,22 @@ def _js(s):
     return s
 
 
-def build(env, j):
-    """JSON term -> FNode of env, through the public constructors."""
+_PUBLIC = {
+    "and": "And", "or": "Or", "not": "Not", "implies": "Implies", "iff": "Iff", "plus": "Plus", "minus": "Minus",
+    "times": "Times", "div": "Div", "pow": "Pow", "le": "LE", "lt": "LT", "equals": "Equals", "ite": "Ite",
+    "toreal": "ToReal", "bvnot": "BVNot", "bvand": "BVAnd", "bvor": "BVOr", "bvxor": "BVXor", "bvconcat": "BVConcat",
+    "bvult": "BVULT", "bvule": "BVULE", "bvneg": "BVNeg", "bvadd": "BVAdd", "bvsub": "BVSub", "bvmul": "BVMul",
+    "bvudiv": "BVUDiv", "bvurem": "BVURem", "bvshl": "BVLShl", "bvlshr": "BVLShr", "bvslt": "BVSLT", "bvsle": "BVSLE",
+    "bvcomp": "BVComp", "bvsdiv": "BVSDiv", "bvsrem": "BVSRem", "bvashr": "BVAShr", "strlen": "StrLength",
+    "strconcat": "StrConcat", "strcontains": "StrContains", "strindexof": "StrIndexOf", "strreplace": "StrReplace",
+    "strsubstr": "StrSubstr", "strprefixof": "StrPrefixOf", "strsuffixof": "StrSuffixOf", "strtoint": "StrToInt",
+    "inttostr": "IntToStr", "strcharat": "StrCharAt", "select": "Select", "store": "Store", "bv2nat": "BVToNatural",
+}
+
+
+def build(env, j, public=False):
+    """JSON term -> FNode of env.  Plain operators go through create_node (exact structure, for replays);
+    with public=True they go through the public constructors (with their documented normalisations)."""
     m = env.formula_manager
     k = j[0]
     if k == "sym":
@@ -209,26 +223,28 @@ def build(env, j):
         return m.BV(int(j[1]), int(j[2]))
     if k in ("forall", "exists"):
         vs = [m.Symbol(n, mk_type(env, norm_sort(s))) for n, s in j[1]]
-        body = build(env, j[2])
+        body = build(env, j[2], public)
         return (m.ForAll if k == "forall" else m.Exists)(vs, body)
     if k == "app":
         fn = m.Symbol(j[1], mk_type(env, norm_sort(j[2])))
-        return m.Function(fn, [build(env, a) for a in j[3:]])
+        return m.Function(fn, [build(env, a, public) for a in j[3:]])
     if k == "extract":
-        return m.BVExtract(build(env, j[3]), int(j[1]), int(j[2]))
+        return m.BVExtract(build(env, j[3], public), int(j[1]), int(j[2]))
     if k == "rol":
-        return m.BVRol(build(env, j[2]), int(j[1]))
+        return m.BVRol(build(env, j[2], public), int(j[1]))
     if k == "ror":
-        return m.BVRor(build(env, j[2]), int(j[1]))
+        return m.BVRor(build(env, j[2], public), int(j[1]))
     if k == "zext":
-        return m.BVZExt(build(env, j[2]), int(j[1]))
+        return m.BVZExt(build(env, j[2], public), int(j[1]))
     if k == "sext":
-        return m.BVSExt(build(env, j[2]), int(j[1]))
+        return m.BVSExt(build(env, j[2], public), int(j[1]))
     if k == "arrval":
-        d = build(env, j[2])
+        d = build(env, j[2], public)
         return m.Array(mk_type(env, norm_sort(j[1])), d,
-                       {build(env, a): build(env, b) for a, b in j[3]})
-    args = tuple(build(env, a) for a in j[1:])
+                       {build(env, a, public): build(env, b, public) for a, b in j[3]})
+    args = tuple(build(env, a, public) for a in j[1:])
+    if public:
+        return getattr(m, _PUBLIC[k])(*args)
     nt = PLAIN[k]
     # go through create_node for plain operators: the n-ary public constructors collapse
     # single arguments and Div/Pow rewrite; a replay must rebuild the exact structure.
